@@ -1,12 +1,14 @@
 package harness
 
 import (
+	"fmt"
 	"math/rand"
-	"runtime"
 	"os"
+	"runtime"
 	"strconv"
 	"strings"
 	"testing"
+	"time"
 )
 
 func envInt(k string, def int64) int64 {
@@ -36,6 +38,31 @@ func TestNLE(t *testing.T) {
 		rep := newReport(mode, seed)
 		rng := rand.New(rand.NewSource(seed))
 		var err error
+		stopDog := func() {}
+		switch mode {
+		case "nats", "natsel", "race", "stress":
+			// the modes that run in real time have no virtual clock to stall: a deadlock of the library would keep them
+			// waiting for ever.  A wall-clock limit far beyond what they take turns that into a hang report.
+			limit := 10 * time.Minute
+			if mode == "race" {
+				limit += time.Duration(n) * time.Millisecond
+			}
+			done := make(chan struct{})
+			stopDog = func() { close(done) }
+			go func(mode string) {
+				select {
+				case <-done:
+				case <-time.After(limit):
+					buf := make([]byte, 4<<20)
+					k := runtime.Stack(buf, true)
+					if out != "" {
+						os.WriteFile(out+"/HANG.json", []byte(fmt.Sprintf("{\"scenario\":%q,\"trace_tail\":\"\",\"stacks\":%q}", "mode "+mode, filterStacks(string(buf[:k])))), 0o644)
+					}
+					fmt.Fprintf(os.Stderr, "NLE-HANG scenario=mode-%s\n", mode)
+					os.Exit(3)
+				}
+			}(mode)
+		}
 		switch mode {
 		case "cfg":
 			err = runCfg(rep, rng, n, thorough)
@@ -60,6 +87,7 @@ func TestNLE(t *testing.T) {
 		default:
 			err = runScenarioMode(t, mode, rep, rng, n, thorough)
 		}
+		stopDog()
 		if err != nil {
 			t.Fatalf("mode %s: %v", mode, err)
 		}
